@@ -59,7 +59,9 @@ def orient_template(meta_molecule, current_node, template, built_nodes):
     """
     # 1. find neighbours at meta_mol level
     neighbours = nx.all_neighbors(meta_molecule, current_node)
-    current_resid = meta_molecule.nodes[current_node]["resid"]
+    # residue ids need not be unique within a molecule (e.g. merged chains),
+    # so a residue is identified by its node and its own atoms
+    current_atoms = meta_molecule.nodes[current_node]["graph"].nodes
 
     # 2. find connecting atoms at low-res level
     edges = []
@@ -78,16 +80,14 @@ def orient_template(meta_molecule, current_node, template, built_nodes):
 
     for ndx, edge in enumerate(edges):
         for atom in edge:
-            resid = meta_molecule.molecule.nodes[atom]["resid"]
-            if resid == current_resid:
+            if atom in current_atoms:
                 current_atom = atom
             else:
                 ref_atom = atom
-                ref_resid = resid
 
         # the reference residue has already been build so we take the lower
         # resolution coordinates as reference
-        if ref_resid in built_nodes:
+        if ref_nodes[ndx] in built_nodes:
             atom_name = meta_molecule.molecule.nodes[current_atom]["atomname"]
 
             # record the coordinates of the atom that is rotated
@@ -183,7 +183,7 @@ class Backmap(Processor):
                     vector = template[atomname]
                     new_coords = cg_coord + vector * self.fudge_coords
                     meta_molecule.molecule.nodes[atom_high]["position"] = new_coords
-                built_nodes.append(resid)
+                built_nodes.append(node)
 
     def run_molecule(self, meta_molecule):
         """
